@@ -6,7 +6,7 @@ in-flight responses finish intact, serves nothing new and exits within the grace
 import json, os, re, signal, socket, struct, sys, threading, time
 import vlib, srv, h2c
 
-KA, RD, WR = 2, 3, 3
+KA, RD, WR = 2, 3, 5
 CONF = r'''
 server.feature-flags = ("server.h2proto" => "enable", "server.h2c" => "enable", "server.graceful-shutdown-timeout" => 6)
 server.max-keep-alive-idle = %d
@@ -230,7 +230,7 @@ def run(ctx):
     ctx.cov["correspondence"]["admission"] = out["admission"]; ctx.cov["correspondence"]["graceful"] = out["graceful"]
     n = len(out["stalls"]) + len(out["limits"]) + 2
     ctx.cov["evaluations"] += n; ctx.cov["distinct_nontrivial"] += n
-    ctx.cov["rule"] = ("real time, max-keep-alive-idle 2 s / max-read-idle 3 s / max-write-idle 3 s: ten stalled clients (silent after connect, inside the request line, inside the head, "
+    ctx.cov["rule"] = ("real time, max-keep-alive-idle 2 s / max-read-idle 3 s / max-write-idle 5 s: ten stalled clients (silent after connect, inside the request line, inside the head, "
                        "inside a Content-Length body, inside a chunked body, idle on keep-alive, not reading an 8 MiB response; HTTP/2 idle after SETTINGS, HTTP/2 body without "
                        "END_STREAM, HTTP/2 response not read) each measured against the model's sweep count; 5 KB head (431), 100 KB bodies with Content-Length and chunked (413); "
                        "server.max-connections 6 with all slots held and four clients knocking on two listening sockets; SIGINT during an 8 MiB download")
